@@ -39,15 +39,15 @@ class _B:
 
 @st.composite
 def programs(draw, feats=ALL_FEATS, min_nodes=2, max_nodes=8, clean=True, modes=S.MODES, p_feat=35,
-             max_params=3, layered=False):
+             max_params=3, layered=False, mode_weights=None, p_layered=6):
     feats = set(feats)
     b = _B()
     n_nodes = draw(st.integers(min_nodes, max_nodes))
-    mode_w = {'gated': 4, 'thread': 2, 'process': 1, 'coro': 1, 'inline': 1}
+    mode_w = mode_weights or {'gated': 4, 'thread': 2, 'process': 1, 'coro': 1, 'inline': 1}
     mode_st = st.sampled_from([m for m in modes for _ in range(mode_w.get(m, 1))])
     wide = draw(st.booleans())
     # shape: 'layered' programs have explicit layers (wide generations => many completions outstanding at once)
-    layered = layered or draw(st.integers(0, 9)) < 6
+    layered = layered or draw(st.integers(0, 9)) < p_layered
     layer_of = {'n0': 0}
     if layered:
         remaining = n_nodes - 2
@@ -415,11 +415,13 @@ def schedules(draw, program=None, max_tape=48):
 @st.composite
 def cases(draw, feats=ALL_FEATS, clean=True, n_scheds=3, **kw):
     """a full engine case: program + variant + schedules"""
-    if draw(st.integers(0, 3)) == 0 and ({'switch', 'oneof'} & set(feats)):
+    p_nested = kw.pop('p_nested', 3)
+    p_fail = kw.pop('p_fail', 9)
+    if p_nested and draw(st.integers(0, p_nested)) == 0 and ({'switch', 'oneof'} & set(feats)):
         prog = draw(nested_programs(feats=feats, max_nodes=max(6, kw.get('max_nodes', 8) + 2)))
     else:
         prog = draw(programs(feats=feats, clean=clean, **kw))
-    var = draw(variants(prog, feats=feats))
+    var = draw(variants(prog, feats=feats, p_fail=p_fail))
     scheds = [draw(schedules(prog)) for _ in range(n_scheds)]
     return {'program': prog, 'variant': var, 'scheds': scheds}
 
